@@ -554,3 +554,64 @@ def _params_not_replaced(fn, rule, matched, rebind_ok=()):
                         reported.add((x.id, bad[0].id))
                         fn.ob(rule, 'argument %s still holds the caller\'s value where the documented step uses it' % x.id, False, bad[0].ast,
                               detail='`%s` replaces %s before: %s' % (norm_stmt(bad[0].ast), x.id, inst), key='param-replaced|' + x.id)
+
+
+def if_chain(block, i):
+    """The if/elif/else chain starting at block[i], robust to the flattening of `else` after a leaving
+    branch (canon C5).  Returns (links [(test, body, ifstmt)], else_body)."""
+    st = block[i]
+    links = []
+    rest = list(block[i + 1:])
+    cur = st
+    while True:
+        links.append((cur.test, cur.body, cur))
+        if len(cur.orelse) == 1 and isinstance(cur.orelse[0], ast.If):
+            cur = cur.orelse[0]
+            rest = []
+            continue
+        if cur.orelse:
+            # `else` may itself start with a flattened link: [If(leaving body), *tail]
+            tail = list(cur.orelse)
+            while tail and isinstance(tail[0], ast.If) and not tail[0].orelse and always_leaves(tail[0].body) and len(tail) > 1:
+                links.append((tail[0].test, tail[0].body, tail[0]))
+                tail = tail[1:]
+            return links, tail
+        # no else: if every link so far leaves, the statements that follow are the else branch
+        if all(always_leaves(b) for _, b, _ in links):
+            tail = rest
+            while tail and isinstance(tail[0], ast.If) and not tail[0].orelse and always_leaves(tail[0].body) and len(tail) > 1:
+                links.append((tail[0].test, tail[0].body, tail[0]))
+                tail = tail[1:]
+            if tail and isinstance(tail[0], ast.If) and tail[0].orelse:
+                l2, e2 = if_chain(tail, 0)
+                return links + l2, e2
+            return links, tail
+        return links, []
+
+
+def always_leaves(stmts):
+    if not stmts:
+        return False
+    last = stmts[-1]
+    if isinstance(last, (ast.Raise, ast.Return, ast.Continue, ast.Break)):
+        return True
+    if isinstance(last, ast.If):
+        return always_leaves(last.body) and always_leaves(last.orelse)
+    return False
+
+
+def block_of(fn, st):
+    """(list, index) of the statement list that directly contains st."""
+    par = fn.parent.get(id(st))
+    for fld in ('body', 'orelse', 'finalbody'):
+        lst = getattr(par, fld, None)
+        if isinstance(lst, list):
+            for i, x in enumerate(lst):
+                if x is st:
+                    return lst, i
+    if isinstance(par, ast.Try):
+        for h in par.handlers:
+            for i, x in enumerate(h.body):
+                if x is st:
+                    return h.body, i
+    return None, None
